@@ -147,7 +147,7 @@ pub fn parse_arguments(to_parse: &str) -> Result<Vec<Unifiable>, String> {
                     has_period = true
                 }
                 else if ch == '\\' {  // escape character, must include next character
-                    if i < length_chrs {
+                    if i + 1 < length_chrs {
                         i += 1;
                         argument.push(chrs[i]);
                     }
